@@ -66,6 +66,12 @@ MISSED_FIRST = {
     "c11-twoiter-reposition-clears-latched-status": "T4-iterator-status-read/twoiter:latched-status-never-cleared",
     "c09-open-does-not-schedule-compaction": "T11-work-scheduled",
     "c07-dbiter-skip-bytewise-equal": "T12-dbiter-composition (db_iter.c tables were added after this seed arrived)",
+    "c01-manual-level0-truncation": "T2-level0-closure/manual-truncation",
+    "c03-current-unlinked-before-rename": "T1-current-replaced-atomically (C02/C20 reported it through T2-remove-on-failure-only; C03 did not)",
+    "c06-has-drops-snapshot": "(reported by C11's T2-read-options-forwarded only; rule now shared with C06)",
+    "c08-tombstone-dropped-above-snapshot": "(reported by C01/C04/C06's T2-compaction-drop only; rule now shared with C08)",
+    "c15-crc-mismatch-trusts-length-at-eof": "T2-crc-mismatch-drops-block",
+    "c14-manual-level0-cap": "(same mechanism as c01-manual-level0-truncation, found independently by a second sub-agent; arrived before the rule existed)",
 }
 rows = []
 for s in sorted(os.listdir(os.path.join(HERE, "seeded"))):
